@@ -25,7 +25,8 @@ SIZES = {
 
 PROBE_DEPS = """
 wgpu = {{ path = "{harness}/shadow-wgpu" }}
-bytemuck = {{ version = "1", features = ["derive"] }}
+# (min_const_generics: what wgpu-core 24 itself enables, i.e. what every wgpu user's bytemuck has)
+bytemuck = {{ version = "1", features = ["derive", "min_const_generics"] }}
 encase = {{ version = "0.10", features = ["glam"] }}
 glam = {{ version = "0.29", features = ["bytemuck", "serde"] }}
 serde = {{ version = "1", features = ["derive"] }}
@@ -136,6 +137,7 @@ def gen_cases(family, tier):
             c.cfgs = [{"opt": opt}]
             if getattr(spec, "expect_decline", None):
                 c.cfgs[0]["expect_decline"] = spec.expect_decline
+                c.cfgs[0]["must_decline"] = bool(getattr(spec, "must_decline", False))
             cases.append(c)
         for i in range(3 if tier == "quick" else 12):
             r = core.rng("bind-many-helpers", i)
@@ -146,7 +148,9 @@ def gen_cases(family, tier):
             # the push constant as the only module-scope variable, several entry points per
             # stage in interleaved order
             r = core.rng("bind-pc-only", i)
-            c = Case("p%d" % i, family, F.fam_bind(r, i, None, pc_only=True))
+            # (every fifth: a library file - push constant and helpers, no entry point at all)
+            c = Case("p%d" % i, family, F.fam_bind(r, i, None,
+                                                   pc_only="noentry" if i % 5 == 4 else True))
             c.cfgs = [{"opt": {"mv": "rust", "val": "all"} if i % 2 else {"mv": "glam"}}]
             cases.append(c)
     elif family == "struct":
@@ -168,10 +172,14 @@ def gen_cases(family, tier):
                     if r.random() < 0.4:
                         # the validator in front must not change what is generated (C05, C17)
                         o["val"] = "all"
+                    if not f64 and not boo and r.random() < 0.35:
+                        o["en"] = True  # both derive families at once
+                    o.update(getattr(spec, "force_opts", {}))
                     cf.append({"opt": o})
                     cf.append({"opt": {"mv": mv}, "plain": True})
-                cf.append({"opt": {"bh": False, "en": (not f64) or rts, "mv": mv,
-                                   "se": r.random() < 0.3, "bv": r.random() < 0.5}})
+                cf.append({"opt": dict({"bh": False, "en": (not f64) or rts, "mv": mv,
+                                        "se": r.random() < 0.3, "bv": r.random() < 0.5},
+                                       **getattr(spec, "force_opts", {}))})
             if len(directed) <= i < len(directed) + nm or getattr(spec, "matrix", False):
                 # full derive matrix for C09 (16 switch sets x 3 representations)
                 for mv in ("rust", "glam", "nalgebra"):
